@@ -76,6 +76,20 @@ def main(tier):
             obs[kk] = obs.get(kk, 0) + 1
     ev.cov['phase_observations'] = {'runs_with_recorded_phases': phase_runs, 'by_phase_and_kind': obs,
                                     'meaning': 'logged state of a main pipeline phase violates its own constraints / has overlapping nodes after an overlap-preventing destress; not part of the statement'}
+    # ---- beyond the statement: the chain bend-sequence lookup table re-derived (BendSeq.tla); observations only
+    bf = os.path.join(d, 'bendseq.json')
+    V.run([hd, 'bendseq', bf], check=True, timeout=120)
+    rb = V.tlc(os.path.join(V.SPEC, 'dialect', 'BendSeq.tla'), os.path.join(V.SPEC, 'dialect', 'BendSeq.cfg'), env={'BENDSEQ': bf}, timeout=900, cont=True)
+    ev.add_tlc('BendSeq: the 128 entries of minimalBendSeqs re-derived on a grid with node extent, and the quarter-turn lemma', rb)
+    bs = {}
+    for m in re.finditer(r'<<"BENDSEQ", (\d+), "([a-z-]+)">>', rb.out):
+        bs[int(m.group(1))] = m.group(2)
+    tally = {}
+    for v in bs.values():
+        tally[v] = tally.get(v, 0) + 1
+    ev.cov['bend_sequence_table'] = {'entries': len(bs), 'by_outcome': tally, 'quarter_turn_lemma_holds': 'RotationLemma' not in ' '.join(rb.violated),
+                                     'meaning': 'ok = the table entry is exactly the set of bend-minimal walkable sequences; the other outcome names entries (cardinal alignment) that also list a sequence '
+                                                'that needs the two nodes to be a little out of line; not part of the statement'}
     ev.cov['evaluations'] = len(recs)
     ev.cov['distinct_nontrivial'] = nontriv
     ev.cov['runs_left_by_exception'] = thrown
